@@ -29,7 +29,8 @@ REQUIRED = ["KV.C06.header_counts", "KV.C06.specials", "KV.C06.closed_spec", "KV
             "KV.C06.ctx_mass_identity", "KV.C06.normalised", "KV.C06.normalised_estimate", "KV.C06.normalised_table",
             "KV.C06.normalised_corpus", "KV.C06.normalised_corpus1", "KV.C06.tableWF_countFull", "KV.C06.prob_le_zero",
             "KV.C06.score_bounds", "KV.C06.normalised_stream", "KV.C06.prune_rule_tree", "KV.C06.parsePruning_ok", "KV.C06.closed_under_prune_rule",
-            "KV.C06.closed_fails_without_rule", "KV.C06.header_counts_corpus", "KV.C06.closed_corpus", "KV.C06.specials_corpus",
+            "KV.C06.closed_fails_without_rule", "KV.C06.intermediate_eq", "KV.C06.intermediate_header",
+            "KV.C06.specials_corpus1", "KV.C06.header_counts_corpus1", "KV.C06.header_counts_corpus", "KV.C06.closed_corpus", "KV.C06.specials_corpus",
             "KV.C06.keep_specials_tree", "KV.C06.prune_copies_specials_tree"]
 
 SUM_TOL = 2e-5
